@@ -60,7 +60,9 @@ class ToeplitzLinearOperator(LinearOperator):
 
         # Collapse any expanded broadcast dimensions
         if res.dim() > self.column.dim():
-            res = res.view(-1, *self.column.shape).sum(0)
+            # sum over the extra LEADING batch dimensions only; size-1 batch dimensions of the column that were broadcast
+            # against larger ones are reduced by autograd (a reshape(-1, *column.shape).sum(0) would mix batch members)
+            res = res.sum(dim=tuple(range(res.dim() - self.column.dim())))
 
         return (res,)
 
